@@ -66,6 +66,7 @@ func runAPI(rec *recorder, sc *Scenario) error {
 		}
 		return known, true
 	}
+	var startOKs atomic.Int64
 	start := func(id uuid.UUID, isKnown bool) {
 		after := okReturned.Load() && isKnown
 		stale := isKnown && sc.MaxSubmitMs > 0 && time.Since(submitAt) > time.Duration(sc.MaxSubmitMs)*time.Millisecond
@@ -75,12 +76,25 @@ func runAPI(rec *recorder, sc *Scenario) error {
 		if err == nil && isKnown {
 			okReturned.Store(true)
 		}
+		if err == nil {
+			startOKs.Add(1)
+		}
 		s.emit(0, func() ev {
 			return ev{"ev": "StartRet", "ok": err == nil, "after": after, "known": isKnown, "stale": stale}
 		})
 	}
-	for _, op := range sc.Api {
+	for opi, op := range sc.Api {
 		name, arg, _ := strings.Cut(op, ":")
+		before := startOKs.Load()
+		if opi > 0 && opi-1 < len(sc.ApiExpect) && sc.ApiExpect[opi-1] != 99 {
+			_ = before
+		}
+		check := func() {
+			if opi < len(sc.ApiExpect) && sc.ApiExpect[opi] != 99 {
+				got := int(startOKs.Load() - before)
+				s.emit(0, func() ev { return ev{"ev": "ApiCheck", "op": op, "expected": sc.ApiExpect[opi], "got": got} })
+			}
+		}
 		switch {
 		case name == "submit":
 			if submitted {
@@ -119,6 +133,7 @@ func runAPI(rec *recorder, sc *Scenario) error {
 		case name == "start":
 			id, k := pick(arg)
 			start(id, k)
+			check()
 		case strings.HasPrefix(name, "race"):
 			n := 2
 			fmt.Sscan(name[4:], &n)
@@ -135,6 +150,7 @@ func runAPI(rec *recorder, sc *Scenario) error {
 			}
 			close(gate)
 			wg.Wait()
+			check()
 		case name == "wait":
 			id, k := pick(arg)
 			var res *workflow.Plan
